@@ -64,6 +64,10 @@ OnLeaf(e) ==
             \* the leaf releases with exactly the shape it allocated with
             Both(\A a \in mine : a.kind = rec.kind /\ a.n = rec.n /\ a.sz = rec.sz /\ a.al = rec.al,
                  "ReleaseSameShape", <<rec, mine>>))
+     \* a request that arrives at a default constructed object instead of the allocator object the composition was
+     \* given (a reference adapter that takes a stateful allocator for stateless talks to a static of its own)
+     ELSE IF e.r = "stray"
+     THEN Result(st, {V("C09", "RequestReachesTheGivenObject", <<e.L, e.op>>)})
      ELSE Result([st EXCEPT !.leafs = Append(@, e)],
             Both(e.r # "unknown", "ReleaseSameLeaf", <<"leaf got memory it does not own", e.L, e.op, e.b, e.off>>))
 
